@@ -40,11 +40,11 @@ def run(rep, prop):
                 'alphabet': 'attach' if rep.tier == 'quick' else 'full'})
     states += len(st5)
     trans += t5
-    # four tasks with pairwise equal ids (0, 2, 0, 2): every ordered forest, detached or spread over two WBSs, <= 1 link; one step
+    # four tasks, the last two look-alikes of the first two (ids (0, 2, 0, 2), equal names and attribute values): every ordered forest, detached or spread over two WBSs, <= 1 link; one step
     # of the attach alphabet (a task moved between two parents that look alike, into a tree that already holds its id)
-    st4 = bfs.seeded_states('U4d', deep_only=False, in_wbs=(False, 'split'), max_links=1 if rep.tier == 'thorough' else 0)
-    t4 = bfs.from_states('U4d', st4, 'attach', rep.acc)
-    per.append({'universe': 'U4d', 'start_states_built_directly': len(st4), 'transitions': t4, 'alphabet': 'attach'})
+    st4 = bfs.seeded_states('U4q', deep_only=False, in_wbs=(False, 'split'), max_links=1 if rep.tier == 'thorough' else 0)
+    t4 = bfs.from_states('U4q', st4, 'attach', rep.acc)
+    per.append({'universe': 'U4q', 'start_states_built_directly': len(st4), 'transitions': t4, 'alphabet': 'attach'})
     states += len(st4)
     trans += t4
     # held-facade transitions (DESIGN section 0): U2 from every state; U3 from the states of depth <= 1 (quick) / all (thorough)
